@@ -534,193 +534,6 @@ def _thread_known_returns(b, grafted, ret_local, RET, H, EARLY):
         t[nxt_key] = first
 
 
-def desugar_for_each(b, bb, c, kind, it_op=None, clo_op=None, push=None):
-    """Rewrite the call terminating block bb of body dict b into the loop it abbreviates, with the closure body `c` grafted in:
-      kind 'for_each'  Iterator::for_each(it, closure)
-      kind 'try'       Iterator::try_for_each(it, closure) with a closure returning Result<(), E>
-      kind 'extend'    Extend::extend(&mut C, it) / Extend::extend(&mut C, map(it, closure)): one push per element (c may be None)
-    """
-    t = b['blocks'][bb]['term']
-    span = t['span']
-    if it_op is None:
-        it_op, clo_op = t['args']
-    dest, cont = t['dest'], t['target']
-    if c is None:
-        c = {'locals': [{'i': 0, 'ty': '<item>', 'mut': True}, {'i': 1, 'ty': '<env>', 'mut': False}, {'i': 2, 'ty': '<item>', 'mut': False}], 'debug': [], 'promoted': [], 'path': None,
-             'blocks': [{'cleanup': False, 'stmts': [{'k': 'assign', 'place': {'local': 0, 'proj': []}, 'rv': {'k': 'use', 'op': {'k': 'move', 'place': {'local': 2, 'proj': []}}}, 'span': span, 'exp': True}],
-                         'term': {'k': 'return', 'span': span, 'exp': True}}]}
-        clo_op = {'k': 'const', 'ty': '()', 'dbg': '()'}
-    nl = len(b['locals'])
-    l_ref, l_item, l_discr, l_rdiscr = nl, nl + 1, nl + 2, nl + 3
-    for k in range(4):
-        b['locals'].append({'i': nl + k, 'ty': '<desugared>', 'mut': True})
-    lbase = len(b['locals'])
-    lm = lambda l: l + lbase
-    for l in c['locals']:
-        b['locals'].append(dict(l, i=l['i'] + lbase))
-    for d in c['debug']:
-        v = d['value']
-        if 'local' in v and not any(p.get('owner') and isinstance(p.get('owner'), dict) and 'closure' in p['owner'] for p in v['proj']):
-            b['debug'].append({'name': d['name'], 'value': _rename_place(v, lm), 'arg': None})
-    B = len(b['blocks'])
-    H, S, U, E, BODY, RET = B, B + 1, B + 2, B + 3, B + 4, B + 5
-    bbase = B + 6
-    bm = lambda x: x + bbase
-    mk = lambda stmts, term: {'cleanup': False, 'stmts': stmts, 'term': term}
-    asg = lambda place, rv: {'k': 'assign', 'place': place, 'rv': rv, 'span': span, 'exp': True}
-    pl = lambda l, proj=(): {'local': l, 'proj': list(proj)}
-    f = t['func']
-    nextf = {'def': 'std::iter::Iterator::next', 'generic_args': f.get('generic_args', [])[:1], 'name': 'next', 'local': False,
-             'trait': 'std::iter::Iterator', 'self_ty': f.get('self_ty')}
-    b['blocks'][bb]['term'] = {'k': 'goto', 'target': H, 'span': span, 'exp': True}
-    blocks = []
-    # H: item = next(&mut it)
-    blocks.append(mk([asg(pl(l_ref), {'k': 'ref', 'mut': True, 'place': it_op['place']})],
-                     {'k': 'call', 'func': nextf, 'args': [{'k': 'move', 'place': pl(l_ref)}], 'dest': pl(l_item), 'target': S, 'span': span, 'exp': True}))
-    # S: match item
-    blocks.append(mk([asg(pl(l_discr), {'k': 'discr', 'place': pl(l_item), 'adt': 'std::option::Option', 'variants': [[0, 'None'], [1, 'Some']]})],
-                     {'k': 'switch', 'discr': {'k': 'move', 'place': pl(l_discr)}, 'discr_ty': 'isize', 'targets': [[0, E], [1, BODY]], 'otherwise': U, 'span': span, 'exp': True}))
-    blocks.append(mk([], {'k': 'unreachable', 'span': span, 'exp': True}))
-    # E: exhausted
-    if kind == 'try':
-        done = {'k': 'agg', 'agg': {'k': 'adt', 'path': 'std::result::Result', 'variant': 'Ok', 'variant_idx': 0, 'fields': ['0']}, 'ops': [{'k': 'const', 'ty': '()', 'dbg': '()'}]}
-    else:
-        done = {'k': 'use', 'op': {'k': 'const', 'ty': '()', 'dbg': '()'}}
-    blocks.append(mk([asg(dest, done)], {'k': 'goto', 'target': cont, 'span': span, 'exp': True} if cont is not None else {'k': 'unreachable', 'span': span, 'exp': True}))
-    # BODY: bind the closure environment and its argument
-    some0 = [{'k': 'downcast', 'variant': 'Some', 'i': 1}, {'k': 'field', 'i': 0, 'name': '0', 'owner': {'adt': 'std::option::Option', 'variant': 'Some'}, 'ty': '<item>'}]
-    blocks.append(mk([asg(pl(lm(1)), {'k': 'use', 'op': ({'k': 'copy', 'place': clo_op['place']} if 'place' in clo_op else clo_op)}),
-                      asg(pl(lm(2)), {'k': 'use', 'op': {'k': 'move', 'place': pl(l_item, some0)}})],
-                     {'k': 'goto', 'target': bm(0), 'span': span, 'exp': True}))
-    # RET: the closure returned
-    if kind == 'try':
-        blocks.append(mk([asg(pl(l_rdiscr), {'k': 'discr', 'place': pl(lm(0)), 'adt': 'std::result::Result', 'variants': [[0, 'Ok'], [1, 'Err']]})],
-                         {'k': 'switch', 'discr': {'k': 'move', 'place': pl(l_rdiscr)}, 'discr_ty': 'isize', 'targets': [[0, H], [1, bbase + len(c['blocks'])]], 'otherwise': U, 'span': span, 'exp': True}))
-    elif kind == 'extend':
-        blocks.append(mk([], {'k': 'call', 'func': push, 'args': [t['args'][0], {'k': 'move', 'place': pl(lm(0))}], 'dest': pl(l_rdiscr), 'target': H, 'span': span, 'exp': False}))
-    else:
-        blocks.append(mk([], {'k': 'goto', 'target': H, 'span': span, 'exp': True}))
-    b['blocks'].extend(blocks)
-    for blk in c['blocks']:
-        nb = {'cleanup': blk['cleanup'], 'stmts': [], 'term': None}
-        for st in blk['stmts']:
-            s2 = dict(st)
-            if 'place' in st:
-                s2['place'] = _rename_place(st['place'], lm)
-            if 'rv' in st:
-                s2['rv'] = _rename_rv(st['rv'], lm)
-            nb['stmts'].append(s2)
-        tt = dict(blk['term'])
-        k = tt['k']
-        if k == 'return':
-            tt = {'k': 'goto', 'target': RET, 'span': tt['span'], 'exp': True}
-        else:
-            for key in ('target', 'otherwise'):
-                if tt.get(key) is not None and isinstance(tt.get(key), int):
-                    tt[key] = bm(tt[key])
-            if k == 'switch':
-                tt['targets'] = [[v, bm(x)] for v, x in tt['targets']]
-                tt['discr'] = _rename_op(tt['discr'], lm)
-            if k == 'call':
-                tt['args'] = [_rename_op(a, lm) for a in tt['args']]
-                tt['dest'] = _rename_place(tt['dest'], lm)
-                if 'indirect' in tt['func']:
-                    tt['func'] = dict(tt['func'], indirect=_rename_op(tt['func']['indirect'], lm))
-            if k == 'drop':
-                tt['place'] = _rename_place(tt['place'], lm)
-            if k == 'assert':
-                tt['cond'] = _rename_op(tt['cond'], lm)
-            if k == 'other':
-                tt['succ'] = [bm(x) for x in tt.get('succ', [])]
-        nb['term'] = tt
-        b['blocks'].append(nb)
-    if kind == 'try':
-        # early exit: the closure's Err is the result of the whole call
-        EARLY = len(b['blocks'])
-        b['blocks'].append(mk([asg(dest, {'k': 'use', 'op': {'k': 'move', 'place': pl(lm(0))}})],
-                              {'k': 'goto', 'target': cont, 'span': span, 'exp': True} if cont is not None else {'k': 'unreachable', 'span': span, 'exp': True}))
-        _thread_known_returns(b, range(bbase, EARLY), lm(0), RET, H, EARLY)
-    if c['path'] is not None and clo_op is not None and 'place' in clo_op:
-        _substitute_captures(b['blocks'][bbase:], lm(1), _capture_places(b, clo_op['place']['local']))
-    if c['path'] is not None:
-        b.setdefault('inlined', []).append(c['path'])
-    if c.get('promoted'):
-        off = len(b.get('promoted', []))
-        b.setdefault('promoted', []).extend(c['promoted'])
-        for blk in b['blocks'][bbase:]:
-            for st in blk['stmts']:
-                _shift_promoted(st.get('rv'), off)
-            for a in blk['term'].get('args', []) if blk['term']['k'] == 'call' else []:
-                _shift_promoted_op(a, off)
-
-
-def apply_desugaring(doc, rounds=3):
-    """`Iterator::for_each` / `try_for_each` with a closure literal become explicit loops (see desugar_for_each). Returns the closure paths grafted."""
-    import copy
-    closures = {b['path']: b for b in doc['bodies'] if b['kind'] == 'Closure'}
-    pristine = {p: copy.deepcopy(b) for p, b in closures.items()}
-    done = []
-    for _ in range(rounds):
-        changed = False
-        for b in doc['bodies']:
-            n0 = len(b['blocks'])
-            for i in range(n0):
-                blk = b['blocks'][i]
-                t = blk['term']
-                if t['k'] != 'call' or blk['cleanup'] or t['target'] is None:
-                    continue
-                f = t['func']
-                if f.get('def') == 'std::iter::Extend::extend' and len(t['args']) == 2:
-                    sty = f.get('self_ty') or ''
-                    if sty.startswith('std::vec::Vec<'):
-                        push = {'def': 'std::vec::Vec::<T, A>::push', 'generic_args': [], 'name': 'push', 'local': False, 'impl_self': 'std::vec::Vec<T, A>'}
-                    elif sty.startswith('std::collections::VecDeque<'):
-                        push = {'def': 'std::collections::VecDeque::<T, A>::push_back', 'generic_args': [], 'name': 'push_back', 'local': False, 'impl_self': 'std::collections::VecDeque<T, A>'}
-                    else:
-                        continue
-                    src = t['args'][1]
-                    if src['k'] not in ('move', 'copy') or src['place']['proj']:
-                        continue
-                    mp = _unique_call_def(b, src['place']['local'])
-                    c = None
-                    it_op, clo_op = src, None
-                    if mp is not None and mp['func'].get('def') == 'std::iter::Iterator::map' and len(mp['args']) == 2:
-                        io, co = mp['args']
-                        if io['k'] in ('move', 'copy') and not io['place']['proj'] and co['k'] in ('move', 'copy') and not co['place']['proj']:
-                            path = _unique_closure_def(b, co['place']['local'])
-                            if path is not None and path in pristine and pristine[path]['arg_count'] == 2:
-                                c = copy.deepcopy(pristine[path])
-                                it_op, clo_op = io, co
-                                done.append((b['path'], path))
-                    desugar_for_each(b, i, c, 'extend', it_op=it_op, clo_op=clo_op, push=push)
-                    changed = True
-                    continue
-                if f.get('def') not in ('std::iter::Iterator::for_each', 'std::iter::Iterator::try_for_each') or len(t['args']) != 2:
-                    continue
-                it_op, clo_op = t['args']
-                if it_op['k'] not in ('move', 'copy') or it_op['place']['proj'] or clo_op['k'] not in ('move', 'copy') or clo_op['place']['proj']:
-                    continue
-                path = _unique_closure_def(b, clo_op['place']['local'])
-                if path is None or path not in pristine or path == b['path']:
-                    continue
-                c = pristine[path]
-                if c['arg_count'] != 2:
-                    continue
-                kind = 'for_each'
-                if f['def'].endswith('try_for_each'):
-                    if not c['locals'][0]['ty'].startswith('std::result::Result<(), '):
-                        continue
-                    kind = 'try'
-                desugar_for_each(b, i, copy.deepcopy(c), kind)
-                done.append((b['path'], path))
-                changed = True
-        if not changed:
-            break
-        # later rounds must graft the already-rewritten closure bodies (nested for_each)
-        pristine = {p: copy.deepcopy(b) for p, b in closures.items()}
-    return done
-
-
 def _qname_of_dict(b):
     st = b.get('impl_self')
     tr = b.get('impl_trait')
@@ -735,6 +548,7 @@ class Facts:
     def __init__(self, doc):
         self.doc = doc
         self.meta = doc['meta']
+        from .desugar import apply_desugaring
         self.desugared = apply_desugaring(doc)
         self.inlined = apply_inlining(doc, _load_inventory())
         self.helper_paths = {h for _, h in self.inlined} | {c for _, c in self.desugared}
@@ -1569,6 +1383,8 @@ class Resolver:
         if e[0] == 'phi' and len(e) > 2:
             # `(x as V).0` is evaluated only where x is a V: alternatives built as another variant cannot be the value here
             def other_variant(a):
+                if a[0] == 'call' and a[1] == 'FromResidual::from_residual' and variant in ('Ok', 'Some', 'Continue'):
+                    return True   # the value a `?` returns early with: an Err / None, never the success payload
                 return a[0] == 'agg' and isinstance(a[1], tuple) and a[1][0] == 'adt' and a[1][2] != variant and \
                     ((a[1][2] in ('Some', 'None') and variant in ('Some', 'None')) or (a[1][2] in ('Ok', 'Err') and variant in ('Ok', 'Err')))
             keep = [a for a in e[2] if not other_variant(a)]
@@ -2022,6 +1838,19 @@ def phi_table(body, R, local):
     out = []
     for (dbb, didx) in body.defs().get(local, []):
         out.append((R.def_expr(dbb, didx), literals(body, R, dbb), dbb))
+    return out
+
+
+def value_table(body, R, local=0, depth=0):
+    """Like phi_table, but alternatives that are themselves joins of another local (the return value of a grafted helper, a temporary holding
+    the result of an if/else) are expanded into that local's alternatives, each with the guards of both assignments."""
+    out = []
+    for v, lits, bb in phi_table(body, R, local):
+        if v[0] == 'phi' and len(v) > 2 and depth < 3 and v[1] != local:
+            for v2, lits2, bb2 in value_table(body, R, v[1], depth + 1):
+                out.append((v2, list(lits2) + [l for l in lits if l not in lits2], bb2))
+        else:
+            out.append((v, lits, bb))
     return out
 
 
